@@ -52,7 +52,7 @@ pub trait DiffHook: Sized {
     /*@*/ spec fn accepts_replace(&self) -> bool;          // may `replace` be called (false for the Replace adapter: outside the verified envelope)
     /*@*/ spec fn config(&self) -> Self;                   // the part of the hook that no call changes (adapters: their configuration); framed by every call
     /*@*/ #[verifier::prophetic]
-    /*@*/ spec fn fobs(&self) -> Obs<Self::Error>;         // prophecy: what the hook(s) borrowed inside this value will look like when the borrows end;
+    /*@*/ spec fn fobs(&self) -> Seq<Obs<Self::Error>>;    // prophecy: what the hooks borrowed inside this value (outermost first) will look like when the borrows end;
     /*@*/                                                  // no call re-seats such a borrow, so it never changes (lets callers resolve `&mut` hooks stored in adapters)
 
     /// Called when lines with indices `old_index` (in the old version) and
@@ -145,7 +145,7 @@ impl<'a, D: DiffHook + 'a> DiffHook for &'a mut D {
     /*@*/ open spec fn last_err(&self) -> Option<Self::Error> { (**self).last_err() }
     /*@*/ open spec fn replace_is_atomic() -> bool { D::replace_is_atomic() }
     /*@*/ open spec fn accepts_replace(&self) -> bool { (**self).accepts_replace() }
-    /*@*/ #[verifier::prophetic] open spec fn fobs(&self) -> Obs<Self::Error> { obs_now(mut_ref_future(*self)) }
+    /*@*/ #[verifier::prophetic] open spec fn fobs(&self) -> Seq<Obs<Self::Error>> { seq![obs_now(mut_ref_future(*self))] + mut_ref_future(*self).fobs() }
     /*@*/ open spec fn config(&self) -> Self { arbitrary() }
 
     #[inline(always)]
@@ -231,7 +231,7 @@ impl<D: DiffHook> DiffHook for NoFinishHook<D> {
     /*@*/ open spec fn last_err(&self) -> Option<Self::Error> { self.inner().last_err() }
     /*@*/ open spec fn replace_is_atomic() -> bool { D::replace_is_atomic() }
     /*@*/ open spec fn accepts_replace(&self) -> bool { self.inner().accepts_replace() }
-    /*@*/ #[verifier::prophetic] open spec fn fobs(&self) -> Obs<Self::Error> { self.inner().fobs() }
+    /*@*/ #[verifier::prophetic] open spec fn fobs(&self) -> Seq<Obs<Self::Error>> { self.inner().fobs() }
     /*@*/ closed spec fn config(&self) -> Self { NoFinishHook(self.0.config()) }
 
     #[inline(always)]
